@@ -195,8 +195,7 @@ def get_model(
                 msg = 'Failed to find asset with id %d in model!'
                 logger.error(msg, target_id)
                 raise LookupError(msg % target_id)
-            attacker.entry_points.append((target_asset,
-                [target_prop]))
+            attacker.add_entry_point(target_asset, target_prop)
             continue
 
         left_asset = instance_model.get_asset_by_id(left_id)
